@@ -1,3 +1,7 @@
+"""Soundness test of tmverif.equiv (development aid): every first-order mutant (tmverif.mutate) of every anchored function of the reference
+is canonicalised and compared with the reference; a mutant claimed EQUIVALENT must be a genuinely behaviour-preserving edit (each claim is
+listed and was read).  `preserve` mode: the behaviour-preserving rewrites of tmverif.preserve, listing those NOT proved.
+usage: tools/equiv_soundness.py mut|preserve"""
 import sys, ast, copy, time
 sys.path.insert(0,'/verif')
 from tmverif import equiv, canon, mutate, preserve
@@ -15,6 +19,16 @@ def funcs():
             if q in seen: continue
             seen.add(q); yield q
 def work(q):
+    import signal
+    def _to(*a): raise TimeoutError(q)
+    signal.signal(signal.SIGALRM, _to); signal.alarm(900)
+    try:
+        return _work(q)
+    except TimeoutError:
+        return ['TIMEOUT %s' % q], 0, 0
+    finally:
+        signal.alarm(0)
+def _work(q):
     out=[]; tot=eqv=0
     mod,fname=q.rsplit('.',1)
     path=os.path.join(REF,'tangermeme',*mod.split('.'))+'.py'
@@ -53,8 +67,11 @@ def work(q):
     return out,tot,eqv
 if __name__=='__main__':
     T=E=0
-    with ProcessPoolExecutor(8) as ex:
-        for out,t,e in ex.map(work, list(funcs())):
+    with ProcessPoolExecutor(12) as ex:
+        from concurrent.futures import as_completed
+        futs=[ex.submit(work,q) for q in funcs()]
+        for fu in as_completed(futs):
+            out,t,e=fu.result()
             for l in out: print(l, flush=True)
             T+=t;E+=e
     print(mode,'total',T,'claimed equivalent',E)
